@@ -70,6 +70,67 @@ ForEachSeq(lo, hi) == LET s == RegionSize(lo, hi)
                             LET r == Reshape3(s, k - 1) IN <<lo[1] + r[1], lo[2] + r[2], lo[3] + r[3]>>]
 
 -------------------------------------------------------------------------------
+\* THE ITERATOR of a sequence as an abstract object: multidim_index_iterator<N> = an extent and a
+\* position 0..total in flattened order; begin() is position 0, end() is position total.
+\*   *it        the coordinate at the position (positions below total only)
+\*   ++it       advances it; its VALUE designates the NEW position
+\*   it++       advances it; its VALUE designates the OLD position
+\*   a == b     same extent and same position; a != b the negation
+\* (what an iterator over a flattened sequence must do for "iteration visits every coordinate exactly
+\*  once in flattened order" to hold in every way of writing the loop, not only in range-for)
+TotalOf(d)  == IF Len(d) = 2 THEN Total2(d) ELSE Total3(d)
+ItAt(d, i)  == [d |-> d, i |-> i]
+ItBegin(d)  == ItAt(d, 0)
+ItEnd(d)    == ItAt(d, TotalOf(d))
+Deref(it)   == IF Len(it.d) = 2 THEN Reshape2(it.d, it.i) ELSE Reshape3(it.d, it.i)
+Advanced(it) == [it EXCEPT !.i = @ + 1]
+PreInc(it)  == [it |-> Advanced(it), val |-> Advanced(it)]
+PostInc(it) == [it |-> Advanced(it), val |-> it]
+ItEq(a, b)  == a.d = b.d /\ a.i = b.i
+ItNe(a, b)  == ~ItEq(a, b)
+
+\* the ways of writing the loop; each yields the sequence of coordinates handed to the body
+\*   for (it = begin; it != end; ++it) body(*it)     - also range-for and std::for_each
+RECURSIVE WalkFor(_, _)
+WalkFor(it, e) == IF ItEq(it, e) THEN <<>> ELSE <<Deref(it)>> \o WalkFor(PreInc(it).it, e)
+\*   for (it = begin; it != end; it++) body(*it)
+RECURSIVE WalkForPost(_, _)
+WalkForPost(it, e) == IF ItEq(it, e) THEN <<>> ELSE <<Deref(it)>> \o WalkForPost(PostInc(it).it, e)
+\*   it = begin; while (++it != end) body(*it)         - the VALUE of ++it is compared (non-empty sequences)
+RECURSIVE WalkWhilePre(_, _)
+WalkWhilePre(it, e) == LET p == PreInc(it) IN IF ItEq(p.val, e) THEN <<>> ELSE <<Deref(p.it)>> \o WalkWhilePre(p.it, e)
+\*   it = begin; do body(*it); while (++it != end);    - non-empty sequences
+RECURSIVE WalkDoWhile(_, _)
+WalkDoWhile(it, e) == LET p == PreInc(it) IN <<Deref(it)>> \o (IF ItEq(p.val, e) THEN <<>> ELSE WalkDoWhile(p.it, e))
+\*   it = begin; n times: body(*++it)                   - the VALUE of ++it is dereferenced
+RECURSIVE WalkDerefPre(_, _)
+WalkDerefPre(it, n) == IF n = 0 THEN <<>> ELSE LET p == PreInc(it) IN <<Deref(p.val)>> \o WalkDerefPre(p.it, n - 1)
+\*   n times: (++it == it)  and the position current() of the value of ++it
+RECURSIVE PreIncEqualsIt(_, _)
+PreIncEqualsIt(it, n) == IF n = 0 THEN <<>> ELSE LET p == PreInc(it) IN <<ItEq(p.val, p.it)>> \o PreIncEqualsIt(p.it, n - 1)
+RECURSIVE PreIncValueIndex(_, _)
+PreIncValueIndex(it, n) == IF n = 0 THEN <<>> ELSE LET p == PreInc(it) IN <<p.val.i>> \o PreIncValueIndex(p.it, n - 1)
+\*   while (it != end) body(*it++)                      - the VALUE of it++ is dereferenced
+RECURSIVE WalkDerefPost(_, _)
+WalkDerefPost(it, e) == IF ItEq(it, e) THEN <<>> ELSE LET p == PostInc(it) IN <<Deref(p.val)>> \o WalkDerefPost(p.it, e)
+\*   n times: old = it; v = it++;  (v == old), (v != it), current() of v
+RECURSIVE PostIncValueIsOld(_, _)
+PostIncValueIsOld(it, n) == IF n = 0 THEN <<>> ELSE LET p == PostInc(it) IN <<ItEq(p.val, it) /\ ItNe(p.val, p.it)>> \o PostIncValueIsOld(p.it, n - 1)
+RECURSIVE PostIncValueIndex(_, _)
+PostIncValueIndex(it, n) == IF n = 0 THEN <<>> ELSE LET p == PostInc(it) IN <<p.val.i>> \o PostIncValueIndex(p.it, n - 1)
+
+IterSeqOf(d) == IF Len(d) = 2 THEN IterSeq2(d) ELSE IterSeq3(d)
+TailOrEmpty(q) == IF Len(q) = 0 THEN <<>> ELSE Tail(q)
+\* every way of writing the loop visits every coordinate exactly once in flattened order (the styles that
+\* start with ++it leave out the first one; they are only meaningful on non-empty sequences)
+WalkStyleLaws(d) ==
+  LET b == ItBegin(d)  e == ItEnd(d)  n == TotalOf(d)  q == IterSeqOf(d) IN
+  /\ WalkFor(b, e) = q /\ WalkForPost(b, e) = q /\ WalkDerefPost(b, e) = q
+  /\ n >= 1 => /\ WalkDoWhile(b, e) = q /\ WalkWhilePre(b, e) = Tail(q) /\ WalkDerefPre(b, n - 1) = Tail(q)
+  /\ PreIncEqualsIt(b, n) = [k \in 1..n |-> TRUE] /\ PreIncValueIndex(b, n) = [k \in 1..n |-> k]
+  /\ PostIncValueIsOld(b, n) = [k \in 1..n |-> TRUE] /\ PostIncValueIndex(b, n) = [k \in 1..n |-> k - 1]
+
+-------------------------------------------------------------------------------
 \* LAWS (what property C17 states about the maps), one operator per clause.
 
 \* the flat index is the rank in flattened order
